@@ -62,7 +62,17 @@ func gen(r *kit.Rand) gcase {
 	c.stddev = c.freq * kit.Pick(r, int64(1), 2, 5, r.Range(1, maxMul+1), r.Range(5, maxMul/2+6), 10*maxMul)
 	nw := kit.Pick(r, 0, 0, 1, 2, 3, 7)
 	for i := 0; i < nw; i++ {
-		c.weights = append(c.weights, kit.Pick(r, 1.0, 0.5, 2.0, 1.5, float64(r.Range(1, 10))/4))
+		c.weights = append(c.weights, kit.Pick(r, 1.0, 0.5, 2.0, 1.5, float64(r.Range(1, 10))/4, 0.0))
+	}
+	// a list may switch windows off (weight 0) but not all of them (the mean would be 0)
+	allZero := nw > 0
+	for _, w := range c.weights {
+		if w != 0 {
+			allZero = false
+		}
+	}
+	if allZero {
+		c.weights[0] = 1.0
 	}
 	c.windows = int(r.Range(1, 3))
 	c.firstWindow = windowOf(1_700_000_000_000_000_000, c.repeat) + r.Range(1, 50)
